@@ -13,7 +13,10 @@ def main():
     from vlib.common import Violation
     mod = importlib.import_module('props.' + rq['prop'])
     if hasattr(mod, 'warmup'):
-        mod.warmup()
+        try:
+            mod.warmup()
+        except Violation:
+            pass
     ns = dict(vars(mod))
     args = rq['args']
     if hasattr(mod, 'decode_args'):
